@@ -257,7 +257,19 @@ class Analyzer:
             else:
                 findings.append(Finding("sensitive", "%s consumed by %s" % (what, c or decl), f.loc(bb)))
         if 0 in stream:
-            findings.append(Finding("sensitive", "%s returned" % what, "%s:%s" % (f.file, f.line)))
+            # a closure handing the stream to flat_map / map: the adaptor's result carries the hash-ordered elements, so
+            # the verdict is the verdict on its consumers in the function that built the closure
+            handled = False
+            if f.kind == "Closure" and depth < 4:
+                for g, bb2, t2 in self.closure_use_sites(f):
+                    nm2 = last_seg(t2.get("callee") or callee_of(t2))
+                    gfl = self.flow(g)
+                    d2 = gfl.node(t2["dest"])
+                    if nm2 in ("flat_map", "map", "filter_map", "flatten", "and_then", "then") and self.is_stream_ty(gfl.ty(d2)):
+                        handled = True
+                        findings.extend(self.classify_stream(g, {d2}, depth + 1, what + " (through %s)" % nm2))
+            if not handled:
+                findings.append(Finding("sensitive", "%s returned" % what, "%s:%s" % (f.file, f.line)))
         # stored in an aggregate
         for bb, i, s in f.stmts():
             if s["rv"]["k"] == "agg" and s["rv"].get("agg") in ("adt", "tuple"):
@@ -271,6 +283,23 @@ class Analyzer:
         if not findings:
             findings.append(Finding("clean", "unused", "%s:%s" % (f.file, f.line)))
         return findings
+
+    def closure_use_sites(self, clo):
+        """(function, block, call) triples where the closure `clo` is passed as an argument."""
+        out = []
+        for g in self.prog.family(clo.root):
+            if g is clo:
+                continue
+            holders = set()
+            for _, _, st in g.stmts():
+                if st["rv"]["k"] == "agg" and st["rv"].get("agg") == "closure" and st["rv"].get("closure") == clo.path:
+                    holders.add(st["pl"]["l"])
+            for bb, t in g.calls():
+                for a in t["args"]:
+                    c = op_const(a) if a.get("k") == "const" else None
+                    if (c and c.get("closure") == clo.path) or (op_local(a) is not None and op_local(a) in holders):
+                        out.append((g, bb, t))
+        return out
 
     def is_stream_ty(self, ty):
         return bool(HASHIT.search(ty) or BTIT.search(ty) or SEQIT.search(ty)
